@@ -146,11 +146,11 @@ type ObjectLiteral struct {
 func (o *ObjectLiteral) String() string {
 	val := "{"
 	i := 0
-	for key, value := range o.Properties {
+	for _, name := range o.Keys {
 		if i > 0 {
 			val += ", "
 		}
-		val += fmt.Sprintf("%s: %s", key, value.String())
+		val += fmt.Sprintf("%s: %s", name.Lexeme, o.Properties[name.Lexeme].String())
 		i++
 	}
 	val += "}"
